@@ -85,6 +85,45 @@ def replay_wolfenstein(model, wd):
         return bool(inrange), 'Wolfenstein %s rejected by the real code (in range: %s)' % (args, inrange)
     return bool(not (e <= 1e-14)) or not inrange, 'Wolfenstein %s: accepted; max |V V^dagger - 1| = %r on the real code (tolerance 1e-14)' % (args, e)
 
+_BP = {}
+def _boundary_pins(ctx):
+    """probe points ON the boundary between accepted and rejected input (where a guard that is slightly too lax shows): for several (A, rho, eta) the extracted function is
+    executed in IEEE doubles and lambda is bisected between an accepted and a rejected value; the last accepted lambda and its neighbours are candidate points"""
+    if 'pins' in _BP:
+        return _BP['pins']
+    import math
+    def accepted(l, a, r, e):
+        it2 = Interp(ctx.w, mode='float')
+        try:
+            it2.run_single(lambda: it2.call('get_ckm_from_wolfenstein', [l, a, r, e], file=SM))
+            return True
+        except Thrown:
+            return False
+        except Exception:
+            return None
+    out = []
+    grid = [0.3 + 0.7 * (1 - 10 ** (-k / 8.0)) for k in range(0, 41)]       # denser towards lambda = 1
+    for a, r, e in ((0.5, 0.3, 0.4), (1.0, 1.0, 1.0), (0.8, -0.6, 0.7), (0.9, 0.1, -0.9), (1.0, 0.0, 1.0), (-0.7, 0.5, 0.5)):
+        cls = [accepted(l, a, r, e) for l in grid]
+        for (l0, c0), (l1, c1) in zip(zip(grid, cls), zip(grid[1:], cls[1:])):
+            if c0 is None or c1 is None or c0 == c1:
+                continue
+            lo, hi = (l0, l1) if c0 else (l1, l0)          # lo accepted, hi rejected
+            for _ in range(70):
+                mid = 0.5 * (lo + hi)
+                if mid in (lo, hi):
+                    break
+                if accepted(mid, a, r, e) is True:
+                    lo = mid
+                else:
+                    hi = mid
+            x = lo
+            for _ in range(3):
+                out.append(dict(lambdaW=Fr(x), aCkm=Fr(a), rhobar=Fr(r), etabar=Fr(e)))
+                x = math.nextafter(x, 2 * x - hi)
+    _BP['pins'] = out
+    return out
+
 @obligation('C20.ckm_from_wolfenstein', fns=[(SM, 'get_ckm_from_wolfenstein')], replay=replay_wolfenstein)
 def _(ctx):
     """ensures: throws only EInvalidInput; every input with some |parameter| > 1 is rejected; an accepted input yields a unitary
@@ -117,6 +156,7 @@ def _(ctx):
             pre = [inrange]
             pins = [dict(lambdaW=Fr(a), aCkm=Fr(b), rhobar=Fr(c), etabar=Fr(d)) for (a, b, c, d) in
                     [('0.9', 1, 1, 1), ('0.5', 1, 1, 1), ('0.99', 1, '0.5', '0.5'), ('0.2', '0.8', '0.1', '0.3'), ('0.9', '0.9', '0.9', '0.9'), ('-0.9', -1, -1, -1)]]
+            pins = pins + _boundary_pins(ctx)
             ev = ctx.refute_by_execution(lambda it2, a: it2.call('get_ckm_from_wolfenstein', a, file=SM), pins, ['lambdaW', 'aCkm', 'rhobar', 'etabar'])
             ctx.sides('accept%d' % k, sym, pre, only=lambda d: not d.startswith('division'), pins=pins, timeout_ms=8000, exec_events=ev)
     if n_throw < 4 or n_ok < 1:
